@@ -133,7 +133,7 @@ theorem readField_print (useHex : Int → Bool) : ∀ (x : Field) (f : Nat) (r :
     have hs : fieldString useHex (.val t c) ++ r = tyString t ++ 32 :: (constIdent useHex t c ++ r) := by simp [fieldString]
     rw [hs]
     have hh : tyString t ++ 32 :: (constIdent useHex t c ++ r) = h :: (rest ++ 32 :: (constIdent useHex t c ++ r)) := by rw [heq]; rfl
-    obtain ⟨hc, crest, hceq, _, hc97, hc40⟩ := const_head37 useHex t c
+    obtain ⟨hc, crest, hceq, _, hc97, hc40, _⟩ := const_head37 useHex t c
     have hty' : TyParse.parseTy (tyFuel (tyString t ++ 32 :: (constIdent useHex t c ++ r))) (tyString t ++ 32 :: (constIdent useHex t c ++ r))
         = some (t, 32 :: (constIdent useHex t c ++ r)) := by
       apply TyParse.parseTy_tyString_gen
